@@ -167,14 +167,15 @@ func (x *Exec) functionalApp(key string, c *Contract, fn *ssa.Function, args []*
 	return TV{App(fname, x.ti.SortOf(rt), args...), rt}
 }
 
-// Recursive spec functions become define-fun-rec.  A slice parameter is passed
-// as (contents array, offset, length); inside the body it is a marker slice
-// whose reads resolve to that array.
+// Recursive spec functions become define-fun-rec.  Every heap the body reads
+// is an extra parameter (named like the heap, shadowing the global constant), so
+// an application denotes the function's value in the heap state it is applied in.
 type recFuncInfo struct {
-	decl   string
-	sort   Sort
-	rtype  types.Type
-	ptypes []types.Type
+	decl     string
+	sort     Sort
+	rtype    types.Type
+	ptypes   []types.Type
+	heapKeys []heapKeySort
 }
 
 func (x *Exec) recFunc(env *Env, sf *SpecFunc) *recFuncInfo {
@@ -186,44 +187,56 @@ func (x *Exec) recFunc(env *Env, sf *SpecFunc) *recFuncInfo {
 	}
 	ri := &recFuncInfo{}
 	x.recFuncs[sf.Name] = ri
-	x.recOrder = append(x.recOrder, sf.Name)
 	tenv := &Env{x: x, pkg: env.pkg}
 	if p := x.v.typesPkg(sf.PkgPath); p != nil {
 		tenv.pkg = p
 	}
 	ri.rtype = tenv.resolveType(sf.Result)
 	ri.sort = x.ti.SortOf(ri.rtype)
-	benv := &Env{x: x, heap: map[string]*Term{}, st: &State{heap: map[string]*Term{}}, bound: map[string]TV{}, pkg: tenv.pkg}
 	var params []string
-	for i, p := range sf.Params {
+	bound := map[string]TV{}
+	for _, p := range sf.Params {
 		pt := tenv.resolveType(p.Type)
 		ri.ptypes = append(ri.ptypes, pt)
-		if sl, ok := pt.Underlying().(*types.Slice); ok {
-			es := x.ti.SortOf(sl.Elem())
-			arr := Atom("arr_"+p.Name, ArraySort(SInt, es))
-			off := Atom("off_"+p.Name, SInt)
-			ln := Atom("len_"+p.Name, SInt)
-			params = append(params, fmt.Sprintf("(%s %s) (%s Int) (%s Int)", arr.Op, arr.Sort, off.Op, ln.Op))
-			marker := IntLit(int64(-(i + 1)))
-			key := x.ti.HeapKey(sl.Elem())
-			h, ok := benv.heap[key]
-			if !ok {
-				h = Atom("recheap_"+key, x.ti.HeapSort(sl.Elem()))
+		a := Atom("a_"+p.Name, x.ti.SortOf(pt))
+		params = append(params, fmt.Sprintf("(%s %s)", a.Op, a.Sort))
+		bound[p.Name] = TV{a, pt}
+	}
+	var body TV
+	for pass := 0; pass < 4; pass++ {
+		bst := &State{heap: map[string]*Term{}}
+		for _, k := range ri.heapKeys {
+			bst.heap[k.key] = Atom(k.key, k.sort)
+		}
+		benv := &Env{x: x, heap: bst.heap, st: bst, bound: map[string]TV{}, pkg: tenv.pkg, alloc: Atom("alloc0", SInt)}
+		for k, v := range bound {
+			benv.bound[k] = v
+		}
+		body = x.compileTV(benv, sf.Body)
+		var keys []heapKeySort
+		for _, k := range sortedHeapKeys(bst.heap) {
+			keys = append(keys, heapKeySort{k, bst.heap[k].Sort})
+		}
+		same := len(keys) == len(ri.heapKeys)
+		for i := range keys {
+			if !same || keys[i] != ri.heapKeys[i] {
+				same = false
+				break
 			}
-			benv.heap[key] = Store(h, marker, arr)
-			benv.st.heap[key] = benv.heap[key]
-			benv.bound[p.Name] = TV{MkSlice(marker, off, ln, ln), pt}
-		} else {
-			a := Atom("a_"+p.Name, x.ti.SortOf(pt))
-			params = append(params, fmt.Sprintf("(%s %s)", a.Op, a.Sort))
-			benv.bound[p.Name] = TV{a, pt}
+		}
+		ri.heapKeys = keys
+		if same {
+			break
 		}
 	}
-	body := x.compileTV(benv, sf.Body)
 	if body.T.Sort != ri.sort {
 		env.fail("recursive spec function %s: body has sort %s, declared %s", sf.Name, body.T.Sort, ri.sort)
 	}
+	for _, k := range ri.heapKeys {
+		params = append(params, fmt.Sprintf("(%s %s)", k.key, k.sort))
+	}
 	ri.decl = fmt.Sprintf("(define-fun-rec %s (%s) %s %s)", sf.Name, strings.Join(params, " "), ri.sort, body.T)
+	x.recOrder = append(x.recOrder, sf.Name)
 	return ri
 }
 
@@ -232,27 +245,27 @@ func (x *Exec) callRecFunc(env *Env, sf *SpecFunc, e *SCall) Value {
 	var args []*Term
 	for i := range sf.Params {
 		a := x.compileTV(env, e.Args[i])
-		if sl, ok := ri.ptypes[i].Underlying().(*types.Slice); ok {
-			if a.T.Sort != SSlice {
-				env.fail("argument %d of %s must be a slice", i, sf.Name)
+		want := x.ti.SortOf(ri.ptypes[i])
+		if a.T.Sort != want {
+			if a.T.Op == "opq-nil" {
+				a.T = x.ti.ZeroTerm(ri.ptypes[i])
+			} else {
+				env.fail("argument %d of %s has sort %s, want %s", i, sf.Name, a.T.Sort, want)
 			}
-			key := x.ti.HeapKey(sl.Elem())
-			h, ok := env.heap[key]
-			if !ok {
-				_, h = x.heapTerm(env.st, sl.Elem())
-				if env.inOld {
-					if oh, ok := env.old.heap[key]; ok {
-						h = oh
-					}
+		}
+		args = append(args, a.T)
+	}
+	for _, k := range ri.heapKeys {
+		h, ok := env.heap[k.key]
+		if !ok {
+			h = x.heapByKey(env.st, k.key, k.sort)
+			if env.inOld {
+				if oh, ok := env.old.heap[k.key]; ok {
+					h = oh
 				}
 			}
-			args = append(args, Select(h, Sel("s-ref", a.T)), Sel("s-off", a.T), Sel("s-len", a.T))
-		} else {
-			if a.T.Sort != x.ti.SortOf(ri.ptypes[i]) {
-				env.fail("argument %d of %s has sort %s", i, sf.Name, a.T.Sort)
-			}
-			args = append(args, a.T)
 		}
+		args = append(args, h)
 	}
 	return TV{App(sf.Name, ri.sort, args...), ri.rtype}
 }
